@@ -177,6 +177,61 @@ def oracle_plan(case):
     return Res(viol, nchecked >= 3 and (first or P >= 150), labels, {"worst_sidelobe_dB_above_-P": worst})
 
 
+# ------------------------------------------------------------------ long segments (L >= 2^16) at the 200 dB default
+@st.composite
+def long_case(draw, tier):
+    return {"P": draw(st.sampled_from([200.0, 200.0, 195.0, 180.0])), "N": draw(st.integers(140000, 420000)),
+            "fbin": draw(st.floats(2e-5, 2e-4)), "A": draw(gens.loguniform(1e-2, 1e2)), "phi": draw(st.floats(0, 2 * math.pi)),
+            "fs": draw(st.sampled_from([1.0, 100.0])), "sched": draw(st.sampled_from(["ltf", "vectorized_ltf", "lpsd"])),
+            "Jdes": draw(st.integers(20, 60)), "Kdes": draw(st.integers(2, 10)), "Lmin": 1,
+            "backend": draw(st.sampled_from(["numba", "numba", "numpy"])), "win": draw(st.sampled_from(["kaiser", "np.kaiser"]))}
+
+
+def oracle_long(case):
+    """Same measurement as plan_leakage on records long enough for segment lengths beyond 2^16 (a low-frequency
+    line, so that the long-L bins lie beyond the main lobes of the line and of DC)."""
+    from speckit import SpectrumAnalyzer
+    P, N, fs, A = case["P"], case["N"], case["fs"], case["A"]
+    al = refs.kaiser_alpha(P)
+    ml = math.sqrt(1 + al * al)
+    th = 2 * np.pi * case["fbin"] * np.arange(N) + case["phi"]
+    win = gens.resolve_window(case["win"])[0]
+    res = SpectrumAnalyzer(np.vstack([A * np.cos(th), A * np.sin(th)]), fs, order=-1, psll=P, win=win, scheduler=case["sched"],
+                           Jdes=case["Jdes"], Kdes=case["Kdes"], Lmin=case["Lmin"], backend=case["backend"]).compute()
+    viol, nlong, worst = [], 0, -1e9
+    lim = 10 ** (-(P - 1) / 10.0)
+    cache = {}
+    f0 = case["fbin"] * fs
+    for j in range(len(res.f)):
+        L = int(res.L[j])
+        if L < 20000:
+            continue
+        b, b0 = float(res.f[j]) * L / fs, f0 * L / fs
+        d1, d2 = abs(b - b0), min(b + b0, L - (b + b0))
+        if d1 <= ml or d2 <= ml:
+            continue
+        if L not in cache:
+            cache[L] = float(np.sum(refs.kaiser_window(L, P))) ** 2
+        on = A * A * cache[L]
+        XX, YY, XY = float(res.XX[j]), float(res.YY[j]), complex(res.XY[j])
+        nlong += L >= 65536
+        for name, val in (("P+", XX + YY + 2 * XY.imag), ("P-", XX + YY - 2 * XY.imag)):
+            ratio = val / on
+            if ratio > 0:
+                worst = max(worst, 10 * math.log10(ratio) + P)
+            if not ratio <= lim:
+                viol.append(V("sidelobe_quadrature_long_segment", which=name, dB=10 * math.log10(max(ratio, 1e-300)), required=-(P - 1),
+                              P=P, L=L, bin=int(j), offset=d1, sched=case["sched"], backend=case["backend"], N=N))
+                break
+        if viol:
+            break
+    labels = ["long:" + case["sched"], "long:P=%g" % P]
+    if nlong:
+        labels.append("long:L>=65536")
+    return Res(viol, nlong >= 1, labels, {"worst_sidelobe_dB_above_-P_long": worst})
+
+
 PARTS = [Part("leakage", case_, oracle, n_quick=300, n_thorough=2500),
-         Part("plan_leakage", plan_case, oracle_plan, n_quick=60, n_thorough=600)]
-QUOTAS = {"plan:first-sidelobes": {"quick": 60, "thorough": 1000}, "first-sidelobe": {"quick": 400, "thorough": 3000}, "P>=150": {"quick": 100, "thorough": 2000}}
+         Part("plan_leakage", plan_case, oracle_plan, n_quick=60, n_thorough=600),
+         Part("long_segments", long_case, oracle_long, n_quick=3, n_thorough=30, shrink=False)]
+QUOTAS = {"long:L>=65536": {"quick": 4, "thorough": 100}, "plan:first-sidelobes": {"quick": 60, "thorough": 1000}, "first-sidelobe": {"quick": 400, "thorough": 3000}, "P>=150": {"quick": 100, "thorough": 2000}}
